@@ -145,6 +145,7 @@ CLASS_FIELDS = {
     'Typed': ['i', 's', 'e', 'fl', 'b', 'l', 'd', 'dyn', 'u', 'n', 'fz', 'o',
               'lo', 't'],
     'Required': ['r', 'rs', 'rd', 'opt'],
+    'Bounds': ['z', 'nz', 'm', 'zi', 'neg', 'i0', 'ip', 'lz'],
 }
 UNLISTED = {
     'Typed': {'fz': ('leaf', 'int', '7'), 't': ('leaf', 'NoneType', 'None')},
@@ -1105,12 +1106,35 @@ def broken_field_rules(c, out=None):
 SPEC_ANY = {'s': 'any'}
 
 
+def field_specs(T):
+  """{key: SPEC} of a container description ({} when it binds none)."""
+  if T['t'] == 'dict':
+    return T.get('specs') or {}
+  if T['t'] == 'obj':
+    return CLASS_SPECS.get(T['cls'], {})
+  return {}
+
+
 def spec_num(kind, lo=None, hi=None, none=False):
   return {'s': kind, 'lo': lo, 'hi': hi, 'none': none}
 
 
 def spec_list(elem, min_size=0, max_size=None):
   return {'s': 'list', 'elem': elem, 'min': min_size, 'max': max_size}
+
+
+# SPECs of the fields of pgverif.models.Bounds.
+CLASS_SPECS = {
+    'Bounds': {
+        'z': spec_num('float', 0.0, None), 'nz': spec_num('float', -0.0, 0.0),
+        'm': spec_num('float', None, 0), 'zi': spec_num('float', 0, 1.0),
+        'neg': spec_num('float', -1.0, -0.0), 'i0': spec_num('int', 0, 0),
+        'ip': spec_num('int', 0, None),
+        'lz': spec_list(spec_num('float', 0.0, 1.0), 0, 3),
+    },
+}
+BOUNDS_DEFAULTS = {'z': 0.0, 'nz': 0.0, 'm': 0.0, 'zi': 0.0, 'neg': -0.5,
+                   'i0': 0, 'ip': 0}
 
 
 def real_spec(s):
@@ -1204,9 +1228,10 @@ def misfits(T):
   """[which parameter, ...]: typed fields of T whose content (placeholder
   ranges, candidates) is not inside the field spec."""
   out = []
-  if T['t'] == 'dict':
-    for k, c in T['items']:
-      r = desc_breaks((T.get('specs') or {}).get(k, SPEC_ANY), c)
+  if T['t'] in ('dict', 'obj'):
+    sp = field_specs(T)
+    for tok, c in children(T):
+      r = desc_breaks(sp.get(tok[1], SPEC_ANY), c)
       if r:
         out.append(r)
   elif T['t'] == 'list' and T.get('elem'):
@@ -1221,7 +1246,7 @@ def misfits(T):
 
 
 def has_bound_spec(T):
-  if T.get('specs') or T.get('elem'):
+  if T.get('specs') or T.get('elem') or (T['t'] == 'obj' and T['cls'] in CLASS_SPECS):
     return True
   kids = T['cands'] if T['t'] == 'choice' else [c for _, c in children(T)]
   return any(has_bound_spec(c) for c in kids)
@@ -1276,8 +1301,12 @@ def broken_bound_specs(D, c, out=None):
       broken_bound_specs(sub, x, out)
   elif t == 'obj' and c[0] == 'obj':
     got = dict(c[2])
+    sp = field_specs(D)
     for k, sub in D['fields']:
       if k in got:
+        r = canon_breaks(sp[k], got[k]) if k in sp else None
+        if r:
+          out.append('typed-object:' + r)
         broken_bound_specs(sub, got[k], out)
   elif t == 'choice' and c[0] == 'ph':
     cands = dict(c[2]).get('candidates')
@@ -1383,7 +1412,7 @@ def float_field(st, s):
   return oneof(vals, tag=_tag(st))
 
 
-def int_field(st):
+def int_field(st, s=None):
   """(SPEC, content) of an int field: a oneof over ints around its bounds."""
   rng = st.rng
   lo = rng.choice([None, 0, 0, 0, 1, -1, -3])
@@ -1394,7 +1423,8 @@ def int_field(st):
     hi = rng.choice([0, 0, 2, -1])
   else:
     hi = lo + rng.choice([0, 0, 1, 3])
-  s = spec_num('int', lo, hi, rng.random() < 0.15)
+  s = s or spec_num('int', lo, hi, rng.random() < 0.15)
+  lo, hi = s['lo'], s['hi']
   pool = {0}
   for b in (lo, hi):
     if b is not None:
@@ -1413,10 +1443,10 @@ def int_field(st):
   return s, oneof(cands, tag=_tag(st))
 
 
-def list_field(st):
+def list_field(st, s=None):
   """(SPEC, content) of a list field with bounded float elements."""
   rng = st.rng
-  es = float_spec(rng)
+  es = s['elem'] if s else float_spec(rng)
   n = rng.randint(2, 4)
   cands = []
   for _ in range(n):
@@ -1425,6 +1455,11 @@ def list_field(st):
   k = rng.randint(2, 3)
   if distinct and k > n:
     k = n
+  if s:
+    if st.outside and rng.random() < 0.15 and s['max'] is not None:
+      k = s['max'] + 1
+      cands += [float_value(st, es) for _ in range(k - len(cands))]
+    return s, choice(k, cands, distinct, srt, tag=_tag(st))
   s = spec_list(es, rng.choice([0, 1, 2]), rng.choice([None, 3, 4]))
   if st.outside and rng.random() < 0.15:
     s = spec_list(es, rng.choice([0, k + 1]), k - 1 if s['min'] == 0 else None)
@@ -1450,6 +1485,21 @@ def bound_template(st):
     if not any(has_placeholder(x) for x in items):
       items[0] = float_range(st, es)
     core = tlist(items, elem=es)
+  elif rng.random() < 0.3:
+    sp = CLASS_SPECS['Bounds']
+    f = {k: const(v) for k, v in BOUNDS_DEFAULTS.items()}
+    f['lz'] = tlist([])
+    keys = rng.sample(sorted(f), rng.randint(1, 3))
+    hot = rng.choice(keys) if outside else None
+    for k in keys:
+      st.outside = k == hot
+      if k in ('i0', 'ip'):
+        f[k] = int_field(st, sp[k])[1]
+      elif k == 'lz':
+        f[k] = list_field(st, sp[k])[1]
+      else:
+        f[k] = float_field(st, sp[k])
+    core = tobj('Bounds', list(f.items()))
   else:
     items, specs = [], {}
     keys = rng.sample(['f', 'g', 'h'], rng.randint(1, 2))
